@@ -125,6 +125,7 @@ public:
     void addIssueInvalidArgument(CellmlElementType type);
     void addIssueNotFound(const std::string &id);
     void addIssueNonUnique(const std::string &id);
+    void addIssueNotInModel(CellmlElementType type);
 };
 
 Annotator::AnnotatorImpl *Annotator::pFunc()
@@ -543,6 +544,14 @@ void Annotator::AnnotatorImpl::addIssueNonUnique(const std::string &id)
     issue->mPimpl->setDescription("The identifier '" + id + "' occurs " + std::to_string(mIdList.count(id)) + " times in the model so a unique item cannot be located.");
     issue->mPimpl->setLevel(Issue::Level::WARNING);
     issue->mPimpl->setReferenceRule(Issue::ReferenceRule::ANNOTATOR_ID_NOT_UNIQUE);
+    addIssue(issue);
+}
+
+void Annotator::AnnotatorImpl::addIssueNotInModel(CellmlElementType type)
+{
+    auto issue = Issue::IssueImpl::create();
+    issue->mPimpl->setDescription("The given item of type '" + cellmlElementTypeAsString(type) + "' is not a member of the model stored in this Annotator object, no identifier has been assigned.");
+    issue->mPimpl->setReferenceRule(Issue::ReferenceRule::INVALID_ARGUMENT);
     addIssue(issue);
 }
 
@@ -1349,6 +1358,7 @@ std::string Annotator::AnnotatorImpl::setAutoId(const AnyCellmlElementPtr &item)
             auto oldId = id(item);
 
             if (!isOwnedByModel(item)) {
+                addIssueNotInModel(item->type());
                 return newId;
             }
 
